@@ -374,6 +374,16 @@ def pipeline_case(draw):
 
 
 @st.composite
+def big_case(draw):
+    """Larger / mixed systems: peptide in a water box, protein + strands, 4-9 chains, a long chain."""
+    from .. import e2e
+
+    desc = draw(e2e.big_structure().filter(lambda d: d["big"] in ("water-box", "mixed", "many", "long")))
+    return dict(part="big", desc=desc, ff=e2e.big_ff(draw, desc) if desc.get("na") else draw(st.sampled_from(["AMBER", "PARSE", "CHARMM"])),
+                tit=None, opts=draw(st.sampled_from([[], [], [], ["--noopt"], ["--nodebump"]])), every=draw(st.sampled_from([5, 7, 11])))  # fmt: skip
+
+
+@st.composite
 def window_case(draw):
     """Windows cut from real structures (with their waters): natural hydroxyl / water networks reach
     optimiser branches (e.g. hydroxyls that accept but cannot donate) that template chains rarely do."""
@@ -439,6 +449,7 @@ def parts(tier):
         Part("cells", check_cells, machine=machine, budget=dict(quick=1600, thorough=16000),
              machine_steps=dict(quick=40, thorough=60), shrink_key="ops"),  # fmt: skip
         Part("pipeline", check_pipeline, strategy=pipeline_case(), budget=dict(quick=240, thorough=4000)),
+        Part("big", check_pipeline, strategy=big_case(), budget=dict(quick=64, thorough=1200)),
         Part("windows", check_pipeline, strategy=window_case(), budget=dict(quick=160, thorough=3000)),
     ]
 
